@@ -59,9 +59,10 @@ type snapState struct {
 }
 
 type iterState struct {
-	it  iterator.Iterator
-	cur *Cursor
-	via string
+	it      iterator.Iterator
+	cur     *Cursor
+	via     string
+	editsAt int // manifest edits seen when the iterator was created
 }
 
 type runner struct {
@@ -884,7 +885,7 @@ func (r *runner) newIter(op *Op, tx *txCtx) *iterState {
 		scribble(l)
 	}
 	cur := NewCursor(v, op.Start, op.Limit, op.HasS, op.HasL)
-	return &iterState{it: it, cur: cur, via: pfx}
+	return &iterState{it: it, cur: cur, via: pfx, editsAt: r.mon.edits}
 }
 
 func (r *runner) stepIter(is *iterState, moves []Move, scrib bool) {
@@ -1122,6 +1123,9 @@ func (r *runner) execOp(op *Op, tx *txCtx) {
 		if is := r.iters[op.Slot]; is != nil {
 			r.stepIter(is, op.Moves, false)
 			r.probe("iter-resumed")
+			if r.mon.edits-is.editsAt > 256 {
+				r.probe("iter-resumed-over-256-versions-later")
+			}
 		}
 	case "iterrel":
 		if is := r.iters[op.Slot]; is != nil {
